@@ -338,9 +338,11 @@ pub fn run(tier: &str) -> i32 {
         }
     });
     let s = st.into_inner().unwrap();
+    let race = sync_race(&v, if thorough { 1500 } else { 150 }, seed());
+    ev.set("free_running_sync_race", json!({"attempts": race.attempts, "full_syncs": race.full, "incremental_syncs": race.incremental, "attempts_where_the_catch_up_was_served_between_live_writes": race.overlapped, "link_lines_replayed": race.lines, "keys_judged": race.keys_judged}));
     ev.evaluations = s.runs;
     ev.distinct_nontrivial = s.shapes.len() as u64;
-    ev.rule = format!("{} simulated-cluster runs: primary history of 1-10 operations (create-db with none/newer/arbiter strategy, set with values from {{one, 'two words', '9 lives', '', '  padded', non-ASCII}}, remove, increment, snapshot) over up to 3 databases, split at two seeded points into before-departure / while-away / during-sync; the joiner leaves by clean stop (valid oplog) or kill, optionally with its disk wiped, optionally with a third node watching; distinct_nontrivial = distinct (sync kind the joiner requested, departure, disk, split sizes, cluster size)", n_runs);
+    ev.rule = format!("{} simulated-cluster runs: primary history of 1-10 operations (create-db with none/newer/arbiter strategy, set with values from {{one, 'two words', '9 lives', '', '  padded', non-ASCII}}, remove, increment, snapshot) over up to 3 databases, split at two seeded points into before-departure / while-away / during-sync; the joiner leaves by clean stop (valid oplog) or kill, optionally with its disk wiped, optionally with a third node watching; distinct_nontrivial = distinct (sync kind the joiner requested, departure, disk, split sizes, cluster size); + {} free-running attempts (real replication loop and supervisor on their own threads, 3 writer sessions on their own keys while the supervisor serves a full or since-a-time catch-up): the stream sent to the secondary must end, for every key, with the value the primary ended with", n_runs, race.attempts);
     ev.samples = s.samples.clone();
     ev.set("full_syncs", json!(s.full_syncs));
     ev.set("incremental_syncs", json!(s.incremental_syncs));
@@ -362,4 +364,257 @@ pub fn run(tier: &str) -> i32 {
     }
     println!("C05 {}: {} runs ({} full, {} incremental syncs), {} shapes, {} catch-up lines, {} keys compared, {} violations", tier, s.runs, s.full_syncs, s.incremental_syncs, s.shapes.len(), s.sync_lines, s.keys_compared, v.violation_count());
     code
+}
+
+// ---------------------------------------------------------------- free-running part: a catch-up racing live writes
+pub struct RaceStats {
+    pub attempts: u64,
+    pub full: u64,
+    pub incremental: u64,
+    pub overlapped: u64,
+    pub lines: u64,
+    pub keys_judged: u64,
+}
+
+/// The real replication loop and the real supervisor of one primary run on their own OS threads (as in production);
+/// a registered secondary is represented by the channel the primary writes its link messages to. While writer sessions
+/// keep writing their own keys (one writer per key, so the primary's order per key is known), the supervisor is asked to
+/// catch the secondary up (full or since-a-time). Afterwards the message stream the secondary was sent is replayed key by
+/// key: its last word about every key must be the value the primary ended with — a catch-up line must never arrive after
+/// (and so overwrite) a live write that the primary accepted during the synchronisation.
+pub fn sync_race(v: &Verdicts, attempts: usize, seed0: u64) -> RaceStats {
+    use crate::common::session::Session;
+    use futures::channel::mpsc::channel;
+    use nundb::bo::{ClusterMember, ClusterRole, Databases};
+    use std::sync::atomic::{AtomicBool, Ordering};
+    use std::sync::Arc;
+    use std::time::{Duration, Instant};
+    let mut st = RaceStats { attempts: 0, full: 0, incremental: 0, overlapped: 0, lines: 0, keys_judged: 0 };
+    let mut rng = Rng::new(seed0 ^ 0x5ace);
+    let dir = fresh_dir("c05-race");
+    nundb::verif::set_dir(Some(dir.clone()));
+    let addr = "10.0.9.1:3014".to_string();
+    let (repl_tx, repl_rx) = channel::<String>(1 << 20);
+    let (sup_tx, sup_rx) = channel::<String>(1000);
+    let dbs = Arc::new(Databases::new("admin".into(), "pwd".into(), addr.clone(), addr.clone(), sup_tx, repl_tx, std::collections::HashMap::new(), 1000, true));
+    dbs.node_state.store(ClusterRole::Primary as usize, Ordering::SeqCst);
+    let dead = Arc::new(AtomicBool::new(false));
+    {
+        let (d, dir1, dead1) = (dbs.clone(), dir.clone(), dead.clone());
+        std::thread::spawn(move || {
+            nundb::verif::set_dir(Some(dir1));
+            let r = std::panic::catch_unwind(std::panic::AssertUnwindSafe(|| futures::executor::block_on(nundb::replication_ops::start_replication_thread(repl_rx, d))));
+            if r.is_err() {
+                dead1.store(true, Ordering::SeqCst);
+            }
+        });
+        let (d, dir2, dead2, a) = (dbs.clone(), dir.clone(), dead.clone(), addr.clone());
+        std::thread::spawn(move || {
+            nundb::verif::set_dir(Some(dir2));
+            ON_SUPERVISOR.with(|f| f.set(true));
+            let r = std::panic::catch_unwind(std::panic::AssertUnwindSafe(|| futures::executor::block_on(nundb::replication_ops::start_replication_supervisor(sup_rx, d, Arc::new(a)))));
+            if r.is_err() {
+                dead2.store(true, Ordering::SeqCst);
+            }
+        });
+    }
+    // injected delay: the supervisor dawdles at every value it reads for a since-a-time catch-up
+    nundb::verif::set_point_callback(Some(Arc::new(|site: &str| {
+        if site == "db.map:get_key_value" && ON_SUPERVISOR.with(|f| f.get()) {
+            let until = Instant::now() + Duration::from_micros(20);
+            while Instant::now() < until {
+                std::hint::spin_loop();
+            }
+        }
+    })));
+    let mut adm = Session::new();
+    adm.call(&dbs, "auth admin pwd");
+    const WRITERS: usize = 3;
+    const KEYS: usize = 50; // per writer and database
+    const RACE_DBS: [&str; 4] = ["r0", "r1", "r2", "r3"];
+    for db in RACE_DBS {
+        adm.call(&dbs, &format!("create-db {} tok", db));
+        adm.call(&dbs, &format!("use-db {} tok", db));
+        for i in 0..4000 {
+            adm.call(&dbs, &format!("set fill{} f", i));
+        }
+        for w in 0..WRITERS {
+            for j in 0..KEYS {
+                adm.call(&dbs, &format!("set k{}_{} init", w, j));
+            }
+        }
+    }
+    let member = "10.0.9.2:3014".to_string();
+    let (mtx, mut mrx) = channel::<String>(1 << 20);
+    dbs.add_cluster_member(ClusterMember { name: member.clone(), role: ClusterRole::Secoundary, sender: Some(mtx) });
+    let mut stream: Vec<String> = vec![];
+    // wait until everything queued so far has gone through the loop
+    let drain_until = |mrx: &mut futures::channel::mpsc::Receiver<String>, stream: &mut Vec<String>, done: &mut dyn FnMut(&[String]) -> bool, limit: Duration| -> bool {
+        let deadline = Instant::now() + limit;
+        let mut quiet_since = Instant::now();
+        loop {
+            match mrx.try_next() {
+                Ok(Some(m)) => {
+                    stream.push(m);
+                    quiet_since = Instant::now();
+                }
+                _ => {
+                    if done(stream) && quiet_since.elapsed() > Duration::from_millis(40) {
+                        return true;
+                    }
+                    if Instant::now() > deadline {
+                        return false;
+                    }
+                    std::thread::sleep(Duration::from_micros(200));
+                }
+            }
+        }
+    };
+    adm.call(&dbs, "set sentinel start");
+    if !drain_until(&mut mrx, &mut stream, &mut |s: &[String]| s.iter().any(|l| l.contains(" sentinel ") && l.ends_with(" start")), Duration::from_secs(20)) {
+        v.inconclusive("sync race: the replication loop did not forward the first write within 20 s");
+        return st;
+    }
+    let mut prev_time = nundb::disk_ops::Oplog::last_op_time();
+    for a in 0..attempts {
+        if dead.load(Ordering::SeqCst) {
+            v.inconclusive("sync race: a service thread of the primary died");
+            break;
+        }
+        stream.clear();
+        let full = a % 2 == 0;
+        // a since-a-time catch-up covers what the previous attempt wrote
+        let since = if full { 0 } else { prev_time.max(1) };
+        prev_time = nundb::disk_ops::Oplog::last_op_time();
+        let stop = Arc::new(AtomicBool::new(false));
+        let mut hs = vec![];
+        for w in 0..WRITERS {
+            let (d, stop) = (dbs.clone(), stop.clone());
+            let wseed = rng.next();
+            hs.push(std::thread::spawn(move || {
+                let mut r = Rng::new(wseed);
+                let mut ss: Vec<Session> = RACE_DBS.iter().map(|db| { let mut s = Session::new(); s.call(&d, &format!("use-db {} tok", db)); s }).collect();
+                let mut last: BTreeMap<String, String> = BTreeMap::new();
+                // every key of this writer is written once per attempt, in a seeded order: a write the catch-up overtakes stays
+                // the key's last write, so the stale value is still there when the stream is judged
+                let mut order: Vec<usize> = (0..KEYS * RACE_DBS.len()).collect();
+                for i in (1..order.len()).rev() {
+                    order.swap(i, r.below(i + 1));
+                }
+                for (i, j) in order.into_iter().enumerate() {
+                    if stop.load(Ordering::Relaxed) {
+                        break;
+                    }
+                    let (dbi, j) = (j / KEYS, j % KEYS);
+                    let key = format!("k{}_{}", w, j);
+                    let val = format!("a{}n{}", a, i);
+                    ss[dbi].call(&d, &format!("set {} {}", key, val));
+                    last.insert(format!("{} {}", RACE_DBS[dbi], key), val);
+                    // paced, so that the replication loop keeps up and forwards a write soon after it was accepted
+                    let until = Instant::now() + Duration::from_micros(10 + r.below(60) as u64);
+                    while Instant::now() < until {
+                        std::hint::spin_loop();
+                    }
+                }
+                for s in ss.drain(..) {
+                    s.disconnect(&d);
+                }
+                last
+            }));
+        }
+        std::thread::sleep(Duration::from_micros(rng.below(3000) as u64));
+        let _ = dbs.replication_supervisor_sender.clone().try_send(format!("replicate-since-to {} {}", member, since));
+        std::thread::sleep(Duration::from_micros(8000 + rng.below(4000) as u64));
+        stop.store(true, Ordering::SeqCst);
+        let mut expected: BTreeMap<String, String> = BTreeMap::new();
+        for h in hs {
+            if let Ok(m) = h.join() {
+                expected.extend(m);
+            }
+        }
+        adm.call(&dbs, "use-db r0 tok");
+        adm.call(&dbs, &format!("set sentinel e{}", a));
+        let tail = format!(" e{}", a);
+        let ok = drain_until(
+            &mut mrx,
+            &mut stream,
+            &mut |s: &[String]| s.iter().any(|l| l.contains(" sentinel ") && l.ends_with(&tail)) && (!full || s.iter().filter(|l| l.starts_with("replicate-snapshot ")).count() >= RACE_DBS.len()),
+            Duration::from_secs(20),
+        );
+        if !ok {
+            v.inconclusive(&format!("sync race: attempt {} did not drain within 20 s ({} lines)", a, stream.len()));
+            continue;
+        }
+        st.attempts += 1;
+        if full {
+            st.full += 1;
+        } else {
+            st.incremental += 1;
+        }
+        st.lines += stream.len() as u64;
+        // replay the stream per key
+        let mut last_word: BTreeMap<String, (String, bool, usize)> = BTreeMap::new(); // key -> (value, came from the catch-up, index)
+        let (mut first_sync, mut last_sync, mut live_between) = (usize::MAX, 0usize, false);
+        for (i, l) in stream.iter().enumerate() {
+            let t: Vec<&str> = l.split(' ').collect();
+            if t.len() >= 7 && t[0] == "rp" && t[2] == "replicate" {
+                last_word.insert(format!("{} {}", t[3], t[4]), (t[6..].join(" "), false, i));
+            } else if t.len() >= 4 && t[0] == "replicate" {
+                last_word.insert(format!("{} {}", t[1], t[2]), (t[3..].join(" "), true, i));
+            }
+            if !l.starts_with("rp ") {
+                first_sync = first_sync.min(i);
+                last_sync = last_sync.max(i);
+            }
+        }
+        if first_sync != usize::MAX {
+            // the catch-up was served while writes were flowing: live writes were forwarded before and after (or inside) it
+            let is_write = |l: &String| l.starts_with("rp ") && !l.contains(" sentinel ");
+            live_between = stream[first_sync..=last_sync].iter().any(is_write) || (stream[..first_sync].iter().any(is_write) && stream[last_sync + 1..].iter().any(is_write));
+        }
+        if live_between {
+            st.overlapped += 1;
+        }
+        if std::env::var("VERIF_DEBUG").is_ok() {
+            let writes_before = if first_sync == usize::MAX { 0 } else { stream[..first_sync].iter().filter(|l| l.starts_with("rp ")).count() };
+            let writes_after = if first_sync == usize::MAX { 0 } else { stream[last_sync + 1..].iter().filter(|l| l.starts_with("rp ")).count() };
+            let older_in_sync = expected.iter().filter(|(k, want)| stream.iter().any(|l| !l.starts_with("rp ") && l.starts_with(&format!("replicate {} ", k)) && !l.ends_with(&format!(" {}", want)))).count();
+            eprintln!("attempt {} full={} lines={} sync=[{}..{}] writes_before={} writes_after={} keys_with_older_value_in_sync={}", a, full, stream.len(), first_sync, last_sync, writes_before, writes_after, older_in_sync);
+        }
+        let now: BTreeMap<&str, _> = RACE_DBS.iter().map(|db| (*db, crate::common::node::dump_db(&dbs, db).unwrap_or_default())).collect();
+        for (key, want) in &expected {
+            // the primary's own final value (one writer per key: it is that writer's last write)
+            let (dbn, kn) = key.split_once(' ').unwrap();
+            if now[dbn].get(kn).map(|k| &k.value) != Some(want) {
+                continue;
+            }
+            st.keys_judged += 1;
+            if let Some((got, from_sync, idx)) = last_word.get(key) {
+                let live_idx = stream.iter().position(|l| l.starts_with("rp ") && l.contains(&format!(" {} ", key)) && l.ends_with(&format!(" {}", want)));
+                if got != want && live_idx.is_none() {
+                    // the accepted write never went out at all: another message went out twice under one operation id?
+                    let mut by_id: BTreeMap<&str, Vec<usize>> = BTreeMap::new();
+                    for (i, l) in stream.iter().enumerate() {
+                        if let Some(rest) = l.strip_prefix("rp ") {
+                            by_id.entry(rest.split(' ').next().unwrap_or("")).or_default().push(i);
+                        }
+                    }
+                    let dup: Vec<String> = by_id.iter().filter(|(_, v)| v.len() > 1).flat_map(|(_, v)| v.iter().map(|i| format!("[{}] {}", i, stream[*i]))).take(6).collect();
+                    let sig = json!({"check": "rejoin", "engine": "free-running-threads", "problem": if dup.is_empty() { "accepted-write-never-forwarded-to-the-secondary" } else { "accepted-write-never-forwarded-another-message-went-out-twice-under-one-operation-id" }});
+                    v.report(sig, json!({"key": key, "primary_value": want, "last_line_sent_to_the_secondary_about_the_key": stream[*idx], "lines_sharing_an_operation_id": dup, "attempt": a}));
+                    continue;
+                }
+                if got != want && *from_sync {
+                    let sig = json!({"check": "rejoin", "engine": "free-running-threads", "sync": if full { "full" } else { "incremental" }, "problem": "catch-up-line-sent-after-a-newer-live-write-of-the-same-key"});
+                    v.report(sig, json!({"key": key, "primary_value": want, "last_line_sent_to_the_secondary_about_the_key": stream[*idx], "at_stream_index": idx, "newer_live_write_at_stream_index": live_idx, "attempt": a, "stream_excerpt": stream.iter().enumerate().filter(|(_, l)| l.contains(&format!(" {} ", key))).map(|(i, l)| format!("[{}] {}", i, l)).collect::<Vec<_>>()}));
+                }
+            }
+        }
+    }
+    nundb::verif::set_point_callback(None);
+    st
+}
+
+thread_local! {
+    static ON_SUPERVISOR: std::cell::Cell<bool> = std::cell::Cell::new(false);
 }
